@@ -117,7 +117,7 @@ impl Prop for C04 {
             ops.push(json!({"k": k, "size": size, "api": *rng.pick(&["send", "send", "feed", "framed"]), "flush_after": rng.chance(1, 2)}));
         }
         let raw = if rng.chance(1, 8) {
-            json!(*rng.pick(&["varint_10_bytes", "prefix_over_max", "prefix_huge", "truncated_body"]))
+            json!(*rng.pick(&["varint_10_bytes", "prefix_over_max", "prefix_huge", "truncated_body", "varint_unterminated", "varint_unterminated_ff", "varint_9_then_end"]))
         } else {
             Value::Null
         };
@@ -276,13 +276,18 @@ impl Prop for C04 {
                     // "malformed" when the codec has a maximum (and would abort the process on
                     // allocation otherwise)
                     let raw_kind = match raw.as_str() {
-                        Some("prefix_huge") | Some("prefix_over_max") | Some("varint_10_bytes") if max.is_none() => None,
+                        Some("prefix_huge") | Some("prefix_over_max") | Some("varint_10_bytes") | Some("varint_unterminated") | Some("varint_unterminated_ff") | Some("varint_9_then_end") if max.is_none() => None,
                         other => other,
                     };
                     if let Some(kind) = raw_kind {
                         use tokio::io::AsyncWriteExt;
                         let bytes: Vec<u8> = match kind {
                             "varint_10_bytes" => vec![0xff, 0xff, 0xff, 0xff, 0xff, 0xff, 0xff, 0xff, 0xff, 0x7f, 1, 2, 3],
+                            // ten and more bytes that all carry the continuation bit, then data
+                            "varint_unterminated" => [vec![0x80u8; 10], vec![1, 2]].concat(),
+                            "varint_unterminated_ff" => [vec![0xffu8; 12], vec![0x01, 7, 7, 7]].concat(),
+                            // nine continuation bytes and nothing more (the stream then just stays open)
+                            "varint_9_then_end" => vec![0x80u8; 9],
                             "prefix_over_max" => {
                                 let mut b = unsigned_varint_encode(max.unwrap_or(1 << 40) as u64 + 1);
                                 b.extend_from_slice(&[7u8; 64]);
